@@ -282,8 +282,8 @@ def convex_hull(
     # sometimes the QbB option will cause precision issues
     # so try the hull again without it and
     # check for qhull_options is None to avoid infinite recursion
-    if qhull_options is None and not convex.is_winding_consistent:
-        return convex_hull(convex, qhull_options=None)
+    if qhull_options is not None and not convex.is_watertight:
+        return convex_hull(obj, qhull_options=None, repair=repair)
 
     return convex
 
